@@ -13,6 +13,11 @@ class StubTx:
         self.g = g
 
     def create(self, subgraph):
+        # what py2neo checks when it builds the Cypher for a subgraph: labels and relationship types are strings
+        for n in subgraph.nodes:
+            for label in n.labels:
+                if not isinstance(label, str):
+                    raise TypeError(type(label).__name__)
         self.g.created.append(subgraph)
 
 
